@@ -131,13 +131,22 @@ impl std::fmt::Debug for Ty {
 }
 
 impl Ty {
-    pub fn get_constr_name_unsafe(&self) -> String {
+    /// Name of the type constructor, or `None` when the type has none (an ill-formed
+    /// application such as `T[int32]` survives type checking after it was reported).
+    pub fn constr_name(&self) -> Option<String> {
         match self {
-            Self::TEnum { name } | Self::TStruct { name } => name.clone(),
-            Self::TApp { ty, .. } => ty.get_constr_name_unsafe(),
-            Self::TVec { .. } => "Vec".to_string(),
-            Self::TRef { .. } => "Ref".to_string(),
-            _ => {
+            Self::TEnum { name } | Self::TStruct { name } => Some(name.clone()),
+            Self::TApp { ty, .. } => ty.constr_name(),
+            Self::TVec { .. } => Some("Vec".to_string()),
+            Self::TRef { .. } => Some("Ref".to_string()),
+            _ => None,
+        }
+    }
+
+    pub fn get_constr_name_unsafe(&self) -> String {
+        match self.constr_name() {
+            Some(name) => name,
+            None => {
                 panic!("Expected a constructor type, got: {:?}", self)
             }
         }
